@@ -1,2 +1,342 @@
+import RsomeV.M.Dro
+import RsomeV.L.DroSound
+import RsomeV.L.DroExact
+import RsomeV.L.DroExactDist
+import RsomeV.Props.C03
+import Mathlib.Tactic.Linarith
+import Mathlib.Tactic.Ring
+import Mathlib.Tactic.NormNum
+import Mathlib.Tactic.FinCases
+
+/-! C04 — EXACTNESS of the event-wise DRO reformulation (`dro.Model.dro_to_roc`, rsome/dro.py).
+
+`C03.dro_sound` shows that the reformulation is *safe*: multipliers `α_s` (one per scenario — in
+the code the columns that multiply the scenario probabilities in the first-stage row) and
+`β_{k,j}` (one vector per expectation set / event — the columns that multiply the scaled means)
+with
+
+* (H2) `f_s(z) ≤ α_s + Σ_{k : s ∈ E_k} β_k·z` on the support `Z_s` of every scenario, and
+* (H1∀) `Σ_s α_s p_s + Σ_k β_k·μ_k ≤ 0` for every `(p, μ)` of the lifted ambiguity set
+
+certify `sup_{P ∈ F} E_P[f] ≤ 0`.  This file proves the **converse** for polytope supports
+(given by their vertices) and a polyhedral lifted set: if the worst-case expectation is `≤ 0` then
+such multipliers exist — finite LP duality (`affine_farkas_cols`, `RsomeV/L/LpDualStrong.lean`,
+proved from `farkas`).  Together: the constraint the code emits is feasible *iff* the
+distributionally robust constraint holds, hence the reported optimum equals the true inf-sup.
+
+Contents (helper lemmas in `RsomeV/L/DroExact.lean`, `RsomeV/L/DroExactDist.lean`):
+1. `dro_complete_vertex`    worst case over vertex distributions `≤ 0` ⇒ `∃ α β`, (H2) at the
+                            vertices ∧ (H1∀);
+2. `hull_of_vertices`       (H2) at the vertices ⇒ (H2) on the hull, for vertex-convex integrands
+                            (`maxAffine_convex`: maxima of affine pieces are);
+3. `dro_exact_vertex`       the iff;
+4. `dro_sup_is_vertex_sup`  the bound then holds for *every* distribution carried by the hulls
+                            (abstract conditional expectations), and every vertex distribution
+                            is one (`vertex_dist_is_dist`) — the two suprema coincide;
+5. examples over `ℚ` (`|z| + z - c` on `[-1, 1]`, mean in `[-1/2, 1/2]`): multipliers exist for
+   `c = 3/2` (worst case `0`), none exist for `c = 1` (worst case `1/2`).
+
+The composition with the compiled rows (`C02.rc_exact_lp`) is in `RsomeV/Props/C04Compiled.lean`
+(`dro_complete_vertex_lift`, `dro_exact_compiled`, `dro_exact_end_to_end`): it is a separate module
+because `RsomeV/Props/C02.lean` and `RsomeV/Props/C03.lean` cannot be imported together
+(`RsomeV/L/RobustComplete.lean` and `RsomeV/L/DroSound.lean` both declare `RsomeV.socMem_congr`);
+this file imports C03 (for `CondExp` and `dro_sound`), that one imports C02.
+
+What is **not** covered: supports that are not polytopes and ambiguity sets with cones (they need
+conic strong duality; `C02.rc_exact_conic_partial` is relative to a no-gap hypothesis). -/
+
+set_option linter.unusedSectionVars false
+set_option linter.unusedSimpArgs false
+set_option linter.unusedVariables false
+
 namespace RsomeV.C04
+open Finset RsomeV ConeProg RoRows Dro
+
+variable {K : Type} [Field K] [LinearOrder K] [IsStrictOrderedRing K]
+
+/-! ### 1. Completeness on vertex distributions -/
+
+/-- **Completeness of the event-wise reformulation (vertex form).**
+
+Data: `S` scenarios, `nE` events `Ev k` (event `k` contains scenario `s` iff `Ev k s`), `nz` random
+components, `nV` vertices per scenario (`vtx s i j` = component `j` of vertex `i` of the support of
+scenario `s`; a scenario with fewer vertices repeats one), `fv s i` = value of the integrand of
+scenario `s` at vertex `i`.  The lifted ambiguity set is `Adm gp gm h S nE nz` — finitely many rows
+`Σ_s gp r s·p_s + Σ_k Σ_j gm r k j·μ_{k,j} ≤ h r` in the scenario probabilities `p` and the scaled
+means `μ_k = Σ_{s ∈ E_k} p_s·E_s[z̃]` (the projection of `Ambiguity.mix_support` on these
+columns).  A *vertex distribution* is a weight `w s i ≥ 0` on vertex `i` of scenario `s`; it
+induces `pOf w s = Σ_i w s i` and `muOf w k j = Σ_{s ∈ E_k} Σ_i w s i·vtx s i j`.
+
+If (feasibility) some vertex distribution induces an admissible `(p, μ)`, and (worst case `≤ 0`)
+every vertex distribution that induces an admissible `(p, μ)` has expected integrand
+`Σ_s Σ_i w s i·fv s i ≤ 0`, then there are multipliers with
+* (H2v) `fv s i ≤ α s + Σ_{k : Ev k s} Σ_j β k j·vtx s i j` at every vertex, and
+* (H1∀) `Σ_s α s·p s + Σ_k Σ_j β k j·μ k j ≤ 0` at every admissible `(p, μ)`.
+
+Mapping to `dro_to_roc`: `α` = the decision columns multiplying the probabilities in the
+first-stage row, `β` = those multiplying the scaled means; (H1∀) is what the compiled first-stage
+row expresses (`dro_exact_compiled` in `RsomeV/Props/C04Compiled.lean`, from `C02.rc_exact_lp`), (H2v) + `hull_of_vertices` is what
+the compiled scenario rows express (`C02.rc_exact_lp` over the support of the scenario).
+
+Proof: `affine_farkas_cols` for the system in the flattened weights `w_{s·nV+i}` whose rows are the
+rows of the lifted set composed with `w ↦ (pOf w, muOf w)` and `-w ≤ 0`; with the multipliers
+`y_r ≥ 0` of the former, `α s = Σ_r y_r·gp r s` and `β k j = Σ_r y_r·gm r k j`. -/
+theorem dro_complete_vertex (S nE nz nV : ℕ) (vtx : ℕ → ℕ → ℕ → K)
+    (Ev : ℕ → ℕ → Prop) [∀ k s, Decidable (Ev k s)]
+    {ι : Type} [Fintype ι] (gp : ι → ℕ → K) (gm : ι → ℕ → ℕ → K) (h : ι → K)
+    (fv : ℕ → ℕ → K)
+    (hfeas : ∃ w : ℕ → ℕ → K, (∀ s < S, ∀ i < nV, 0 ≤ w s i) ∧
+      Adm gp gm h S nE nz (pOf nV w) (muOf S nV vtx Ev w))
+    (hworst : ∀ w : ℕ → ℕ → K, (∀ s < S, ∀ i < nV, 0 ≤ w s i) →
+      Adm gp gm h S nE nz (pOf nV w) (muOf S nV vtx Ev w) →
+      ∑ s ∈ range S, ∑ i ∈ range nV, w s i * fv s i ≤ 0) :
+    ∃ (α : ℕ → K) (β : ℕ → ℕ → K),
+      (∀ s < S, ∀ i < nV, fv s i ≤ α s + ∑ k ∈ range nE,
+        if Ev k s then ∑ j ∈ range nz, β k j * vtx s i j else 0) ∧
+      (∀ p μ, Adm gp gm h S nE nz p μ →
+        ∑ s ∈ range S, α s * p s + ∑ k ∈ range nE, ∑ j ∈ range nz, β k j * μ k j ≤ 0) :=
+  dro_complete_vertex_core S nE nz nV vtx Ev gp gm h fv hfeas hworst
+
+/-! ### 2. From the vertices to the hull -/
+
+/-- **Maxima of affine pieces are vertex-convex**: `f z = max_{l ≤ L} (a l + Σ_{j<nz} b l j·z j)`
+(a `Finset.sup'` over the `L + 1` pieces; the piecewise-linear integrands `rsome` accepts in
+`E(...)`: `maxof`, `abs`, affine) satisfies the chord inequality over any vertex family. -/
+theorem maxAffine_convex (nz nV L : ℕ) (vtx : ℕ → ℕ → K) (a : ℕ → K) (b : ℕ → ℕ → K) :
+    VtxConvex nz nV vtx
+      (fun z => (range (L + 1)).sup' nonempty_range_add_one
+        (fun l => a l + ∑ j ∈ range nz, b l j * z j)) :=
+  vtxConvex_sup' nz nV vtx (range (L + 1)) nonempty_range_add_one
+    (fun l z => a l + ∑ j ∈ range nz, b l j * z j)
+    (fun l _ => vtxConvex_affine nz nV vtx (a l) (b l))
+
+/-- the same for the binary `max` of two affine pieces (e.g. `|z_0| = max(z_0, -z_0)`) -/
+theorem maxAffine2_convex (nz nV : ℕ) (vtx : ℕ → ℕ → K) (a a' : K) (b b' : ℕ → K) :
+    VtxConvex nz nV vtx
+      (fun z => max (a + ∑ j ∈ range nz, b j * z j) (a' + ∑ j ∈ range nz, b' j * z j)) :=
+  vtxConvex_max nz nV vtx _ _ (vtxConvex_affine nz nV vtx a b) (vtxConvex_affine nz nV vtx a' b')
+
+/-- the chord inequality in the form "convex along vertex combinations" plus "`f` reads the
+components `j < nz` only" is `VtxConvex` -/
+theorem vtxConvex_of_convex (nz nV : ℕ) (vtx : ℕ → ℕ → K) (f : (ℕ → K) → K)
+    (hconv : ∀ lam : ℕ → K, (∀ i < nV, 0 ≤ lam i) → ∑ i ∈ range nV, lam i = 1 →
+      f (fun j => ∑ i ∈ range nV, lam i * vtx i j) ≤ ∑ i ∈ range nV, lam i * f (vtx i))
+    (hloc : ∀ z z' : ℕ → K, (∀ j < nz, z j = z' j) → f z = f z') :
+    VtxConvex nz nV vtx f :=
+  vtxConvex_of_convex_local nz nV vtx f hconv hloc
+
+/-- **Scenario rows at the vertices give the scenario rows on the hull.**  If the integrand `f s`
+of every scenario is vertex-convex (`VtxConvex`: at a point whose components `j < nz` are
+`Σ_i λ_i·vtx s i` the value is `≤ Σ_i λ_i·f s (vtx s i)`), then (H2v) with
+`fv s i = f s (vtx s i)` implies (H2) on `Hull nz nV (vtx s)` (the points whose components
+`j < nz` are a convex combination of the vertices) — the support `Z s` of `C03.dro_sound`.
+In the code the scenario rows are compiled for the whole support (`C02.rc_exact_lp`); for a
+polytope support this is the same statement. -/
+theorem hull_of_vertices (S nE nz nV : ℕ) (vtx : ℕ → ℕ → ℕ → K)
+    (Ev : ℕ → ℕ → Prop) [∀ k s, Decidable (Ev k s)]
+    (f : ℕ → (ℕ → K) → K) (hconv : ∀ s < S, VtxConvex nz nV (vtx s) (f s))
+    (α : ℕ → K) (β : ℕ → ℕ → K)
+    (H2v : ∀ s < S, ∀ i < nV, f s (vtx s i) ≤ α s + ∑ k ∈ range nE,
+        if Ev k s then ∑ j ∈ range nz, β k j * vtx s i j else 0) :
+    ∀ s < S, ∀ z, Hull nz nV (vtx s) z →
+      f s z ≤ α s + ∑ k ∈ range nE, if Ev k s then ∑ j ∈ range nz, β k j * z j else 0 := by
+  intro s hs z hz
+  exact hull_row nE nz nV (vtx s) (f s) (hconv s hs) (α s) (fun k => Ev k s) β (H2v s hs) z hz
+
+/-! ### 3. Exactness -/
+
+/-- **Exactness of the event-wise reformulation for polytope supports and polyhedral lifted
+sets.**  Under feasibility (some vertex distribution induces an admissible `(p, μ)`) and for
+vertex-convex integrands:
+multipliers `α, β` with (H2) on the hulls and (H1∀) exist **iff** every vertex distribution that
+induces an admissible `(p, μ)` has expected integrand `≤ 0`.
+
+`→` is a direct computation (`vertex_sound`: weight (H2) at the vertices by `w s i ≥ 0`, sum,
+regroup into `Σ_s α_s·pOf w s + Σ_k β_k·muOf w k`, apply (H1∀) at the induced pair) — it is
+also the instance `Es s = finExp` of `C03.dro_sound`, see `dro_sup_is_vertex_sup`;
+`←` is `dro_complete_vertex` followed by `hull_of_vertices`.  (Feasibility is used by `←` only.) -/
+theorem dro_exact_vertex (S nE nz nV : ℕ) (vtx : ℕ → ℕ → ℕ → K)
+    (Ev : ℕ → ℕ → Prop) [∀ k s, Decidable (Ev k s)]
+    {ι : Type} [Fintype ι] (gp : ι → ℕ → K) (gm : ι → ℕ → ℕ → K) (h : ι → K)
+    (f : ℕ → (ℕ → K) → K) (hconv : ∀ s < S, VtxConvex nz nV (vtx s) (f s))
+    (hfeas : ∃ w : ℕ → ℕ → K, (∀ s < S, ∀ i < nV, 0 ≤ w s i) ∧
+      Adm gp gm h S nE nz (pOf nV w) (muOf S nV vtx Ev w)) :
+    (∃ (α : ℕ → K) (β : ℕ → ℕ → K),
+      (∀ s < S, ∀ z, Hull nz nV (vtx s) z →
+        f s z ≤ α s + ∑ k ∈ range nE, if Ev k s then ∑ j ∈ range nz, β k j * z j else 0) ∧
+      (∀ p μ, Adm gp gm h S nE nz p μ →
+        ∑ s ∈ range S, α s * p s + ∑ k ∈ range nE, ∑ j ∈ range nz, β k j * μ k j ≤ 0))
+    ↔ (∀ w : ℕ → ℕ → K, (∀ s < S, ∀ i < nV, 0 ≤ w s i) →
+        Adm gp gm h S nE nz (pOf nV w) (muOf S nV vtx Ev w) →
+        ∑ s ∈ range S, ∑ i ∈ range nV, w s i * f s (vtx s i) ≤ 0) := by
+  constructor
+  · rintro ⟨α, β, H2, H1⟩ w hw hadm
+    exact vertex_sound S nE nz nV vtx Ev (fun s i => f s (vtx s i)) α β w hw
+      (fun s hs i hi => H2 s hs _ (vtx_mem_hull nz nV (vtx s) i hi)) (H1 _ _ hadm)
+  · intro hworst
+    obtain ⟨α, β, H2v, H1⟩ := dro_complete_vertex S nE nz nV vtx Ev gp gm h
+      (fun s i => f s (vtx s i)) hfeas hworst
+    exact ⟨α, β, hull_of_vertices S nE nz nV vtx Ev f hconv α β H2v, H1⟩
+
+/-! ### 4. All distributions on the hulls -/
+
+/-- **The supremum over all distributions carried by the polytopes is the supremum over vertex
+distributions.**  If every vertex distribution inducing an admissible `(p, μ)` has expected
+integrand `≤ 0` (the right-hand side of `dro_exact_vertex`), then so has *every* distribution:
+scenario probabilities `p ≥ 0` and conditional expectation operators `Es s` on the hulls
+(`CondExp`, `RsomeV/L/DroSound.lean`) whose probabilities and scaled means
+`μ k j = Σ_{s ∈ E_k} p s·E_s[z_j]` are admissible.  (`dro_exact_vertex` `←`, then
+`C03.dro_sound`.)  The reverse inequality of the two suprema is `vertex_dist_is_dist`: vertex
+distributions are among these distributions. -/
+theorem dro_sup_is_vertex_sup (S nE nz nV : ℕ) (vtx : ℕ → ℕ → ℕ → K)
+    (Ev : ℕ → ℕ → Prop) [∀ k s, Decidable (Ev k s)]
+    {ι : Type} [Fintype ι] (gp : ι → ℕ → K) (gm : ι → ℕ → ℕ → K) (h : ι → K)
+    (f : ℕ → (ℕ → K) → K) (hconv : ∀ s < S, VtxConvex nz nV (vtx s) (f s))
+    (hfeas : ∃ w : ℕ → ℕ → K, (∀ s < S, ∀ i < nV, 0 ≤ w s i) ∧
+      Adm gp gm h S nE nz (pOf nV w) (muOf S nV vtx Ev w))
+    (hworst : ∀ w : ℕ → ℕ → K, (∀ s < S, ∀ i < nV, 0 ≤ w s i) →
+        Adm gp gm h S nE nz (pOf nV w) (muOf S nV vtx Ev w) →
+        ∑ s ∈ range S, ∑ i ∈ range nV, w s i * f s (vtx s i) ≤ 0)
+    (Es : ℕ → ((ℕ → K) → K) → K) (hEs : ∀ s < S, CondExp (Hull nz nV (vtx s)) (Es s))
+    (p : ℕ → K) (hp : ∀ s < S, 0 ≤ p s)
+    (hadm : Adm gp gm h S nE nz p
+      (fun k j => ∑ s ∈ range S, if Ev k s then p s * Es s (fun z => z j) else 0)) :
+    ∑ s ∈ range S, p s * Es s (f s) ≤ 0 := by
+  obtain ⟨α, β, H2, H1⟩ :=
+    (dro_exact_vertex S nE nz nV vtx Ev gp gm h f hconv hfeas).mpr hworst
+  exact C03.dro_sound S nE nz (fun s => Hull nz nV (vtx s)) Es hEs f α β Ev p hp H2
+    (H1 p _ hadm)
+
+/-- **Vertex distributions are distributions on the hulls**: for weights `w ≥ 0` (and at least one
+vertex per scenario) the operators `vtxEs nV vtx w s` (weights `w s i / p s` on the vertices of
+scenario `s`, `p s = pOf w s`) are conditional expectation operators on the hulls, the expected
+integrand is `Σ_s p s·E_s[g s] = Σ_s Σ_i w s i·g s (vtx s i)` for every family `g`, and the scaled
+means are `muOf w`. -/
+theorem vertex_dist_is_dist (S nz nV : ℕ) (hV : 0 < nV) (vtx : ℕ → ℕ → ℕ → K)
+    (Ev : ℕ → ℕ → Prop) [∀ k s, Decidable (Ev k s)]
+    (w : ℕ → ℕ → K) (hw : ∀ s < S, ∀ i < nV, 0 ≤ w s i) :
+    (∀ s < S, CondExp (Hull nz nV (vtx s)) (vtxEs nV vtx w s)) ∧
+    (∀ s < S, 0 ≤ pOf nV w s) ∧
+    (∀ g : ℕ → (ℕ → K) → K, ∑ s ∈ range S, pOf nV w s * vtxEs nV vtx w s (g s)
+        = ∑ s ∈ range S, ∑ i ∈ range nV, w s i * g s (vtx s i)) ∧
+    (∀ k j, (∑ s ∈ range S,
+        if Ev k s then pOf nV w s * vtxEs nV vtx w s (fun z => z j) else 0)
+        = muOf S nV vtx Ev w k j) := by
+  refine ⟨fun s hs => vtxEs_condExp nz nV hV vtx w s (hw s hs),
+    fun s hs => pOf_nonneg nV w s (hw s hs), ?_, ?_⟩
+  · intro g
+    apply Finset.sum_congr rfl; intro s hs
+    exact vtxEs_eval nV vtx w s (hw s (Finset.mem_range.mp hs)) (g s)
+  · intro k j
+    unfold muOf
+    apply Finset.sum_congr rfl; intro s hs
+    by_cases hk : Ev k s
+    · rw [if_pos hk, if_pos hk]
+      exact vtxEs_eval nV vtx w s (hw s (Finset.mem_range.mp hs)) (fun z => z j)
+    · rw [if_neg hk, if_neg hk]
+
+/-! ### 5. Examples over `ℚ`
+
+One scenario, one event (the whole sample space), one random component with support `[-1, 1]`
+(vertices `-1` and `1`), lifted set `p = 1`, `-p/2 ≤ μ ≤ p/2` (mean in `[-1/2, 1/2]`), integrand
+`f(z) = |z| + z - c = max(z, -z) + z - c`.  The worst case puts weight `3/4` on `1` and `1/4` on
+`-1`: `sup E[f] = 3/2 - c`. -/
+
+/-- rows `p ≤ 1`, `-p ≤ -1`, `μ - p/2 ≤ 0`, `-μ - p/2 ≤ 0` -/
+def exGp : Fin 4 → ℕ → ℚ := fun r _ => if r.val = 0 then 1 else if r.val = 1 then -1 else -1/2
+def exGm : Fin 4 → ℕ → ℕ → ℚ := fun r _ _ => if r.val = 2 then 1 else if r.val = 3 then -1 else 0
+def exH : Fin 4 → ℚ := fun r => if r.val = 0 then 1 else if r.val = 1 then -1 else 0
+
+/-- what admissibility of the pair induced by `w` says -/
+lemma ex_adm_iff (w : ℕ → ℕ → ℚ) :
+    Adm exGp exGm exH 1 1 1 (pOf 2 w) (muOf 1 2 exVtx (fun _ _ => True) w) ↔
+      (w 0 0 + w 0 1 = 1 ∧ w 0 1 - w 0 0 ≤ 1/2 ∧ -(1/2) ≤ w 0 1 - w 0 0) := by
+  constructor
+  · intro hA
+    have r0 := hA 0
+    have r1 := hA 1
+    have r2 := hA 2
+    have r3 := hA 3
+    simp [exGp, exGm, exH, pOf, muOf, exVtx, Finset.sum_range_succ] at r0 r1 r2 r3
+    refine ⟨by linarith, by linarith, by linarith⟩
+  · rintro ⟨a, b, c⟩ r
+    fin_cases r <;>
+      simp [exGp, exGm, exH, pOf, muOf, exVtx, Finset.sum_range_succ] <;> linarith
+
+/-- feasibility: the worst-case distribution induces `p = 1`, `μ = 1/2` -/
+lemma ex_feas : ∃ w : ℕ → ℕ → ℚ, (∀ s < 1, ∀ i < 2, 0 ≤ w s i) ∧
+    Adm exGp exGm exH 1 1 1 (pOf 2 w) (muOf 1 2 exVtx (fun _ _ => True) w) := by
+  refine ⟨exW, ?_, (ex_adm_iff exW).mpr ?_⟩
+  · intro s _ i _; unfold exW; split_ifs <;> norm_num
+  · norm_num [exW]
+
+/-- for `c = 3/2` the worst case over the vertex distributions is `≤ 0` … -/
+lemma ex_worst : ∀ w : ℕ → ℕ → ℚ, (∀ s < 1, ∀ i < 2, 0 ≤ w s i) →
+    Adm exGp exGm exH 1 1 1 (pOf 2 w) (muOf 1 2 exVtx (fun _ _ => True) w) →
+    ∑ s ∈ range 1, ∑ i ∈ range 2, w s i * exF (3/2) s (exVtx s i) ≤ 0 := by
+  intro w hw hadm
+  obtain ⟨a, b, c⟩ := (ex_adm_iff w).mp hadm
+  simp only [Finset.sum_range_succ, Finset.sum_range_zero, zero_add, exF_v0, exF_v1]
+  linarith
+
+/-- … so `dro_complete_vertex` provides multipliers (non-vacuity of its hypotheses) … -/
+example : ∃ (α : ℕ → ℚ) (β : ℕ → ℕ → ℚ),
+    (∀ s < 1, ∀ i < 2, exF (3/2) s (exVtx s i) ≤ α s + ∑ k ∈ range 1,
+      if True then ∑ j ∈ range 1, β k j * exVtx s i j else 0) ∧
+    (∀ p μ, Adm exGp exGm exH 1 1 1 p μ →
+      ∑ s ∈ range 1, α s * p s + ∑ k ∈ range 1, ∑ j ∈ range 1, β k j * μ k j ≤ 0) :=
+  dro_complete_vertex 1 1 1 2 exVtx (fun _ _ => True) exGp exGm exH
+    (fun s i => exF (3/2) s (exVtx s i)) ex_feas ex_worst
+
+/-- … and `dro_exact_vertex` gives them on the whole interval … -/
+example : ∃ (α : ℕ → ℚ) (β : ℕ → ℕ → ℚ),
+    (∀ s < 1, ∀ z, Hull 1 2 (exVtx s) z → exF (3/2) s z ≤ α s + ∑ k ∈ range 1,
+      if True then ∑ j ∈ range 1, β k j * z j else 0) ∧
+    (∀ p μ, Adm exGp exGm exH 1 1 1 p μ →
+      ∑ s ∈ range 1, α s * p s + ∑ k ∈ range 1, ∑ j ∈ range 1, β k j * μ k j ≤ 0) :=
+  (dro_exact_vertex 1 1 1 2 exVtx (fun _ _ => True) exGp exGm exH (exF (3/2))
+    (exF_convex (3/2)) ex_feas).mpr ex_worst
+
+/-- … explicitly `α = -1/2`, `β = 1` (the tangent `z - 1/2` of `|z| + z - 3/2` through the two
+vertices; `α·p + β·μ = -1/2 + μ ≤ 0` is tight at the worst-case mean `μ = 1/2`) -/
+example :
+    (∀ s < 1, ∀ i < 2, exF (3/2) s (exVtx s i) ≤ (fun _ => (-1/2 : ℚ)) s + ∑ k ∈ range 1,
+      if True then ∑ j ∈ range 1, (fun _ _ => (1:ℚ)) k j * exVtx s i j else 0) ∧
+    (∀ p μ, Adm exGp exGm exH 1 1 1 p μ →
+      ∑ s ∈ range 1, (fun _ => (-1/2 : ℚ)) s * p s
+        + ∑ k ∈ range 1, ∑ j ∈ range 1, (fun _ _ => (1:ℚ)) k j * μ k j ≤ 0) := by
+  constructor
+  · intro s _ i hi
+    have : i = 0 ∨ i = 1 := by omega
+    rcases this with rfl | rfl
+    · rw [exF_v0]; simp [exVtx]; norm_num
+    · rw [exF_v1]; simp [exVtx]; norm_num
+  · intro p μ hA
+    have r0 := hA 0
+    have r2 := hA 2
+    simp [exGp, exGm, exH, Finset.sum_range_succ] at r0 r2
+    simp [Finset.sum_range_succ]
+    linarith
+
+/-- for `c = 1` the worst case is `1/2 > 0` (attained by `exW`) and **no** multipliers exist:
+the reformulated constraint is infeasible exactly when the robust constraint fails -/
+example : ¬ ∃ (α : ℕ → ℚ) (β : ℕ → ℕ → ℚ),
+    (∀ s < 1, ∀ z, Hull 1 2 (exVtx s) z → exF 1 s z ≤ α s + ∑ k ∈ range 1,
+      if True then ∑ j ∈ range 1, β k j * z j else 0) ∧
+    (∀ p μ, Adm exGp exGm exH 1 1 1 p μ →
+      ∑ s ∈ range 1, α s * p s + ∑ k ∈ range 1, ∑ j ∈ range 1, β k j * μ k j ≤ 0) := by
+  intro hex
+  have h := (dro_exact_vertex 1 1 1 2 exVtx (fun _ _ => True) exGp exGm exH (exF 1)
+    (exF_convex 1) ex_feas).mp hex exW
+    (by intro s _ i _; unfold exW; split_ifs <;> norm_num)
+    ((ex_adm_iff exW).mpr (by norm_num [exW]))
+  simp only [Finset.sum_range_succ, Finset.sum_range_zero, zero_add, exF_v0, exF_v1] at h
+  norm_num [exW] at h
+
+/-- `maxAffine_convex` instantiated: `|z_0|` as the maximum of the pieces `z_0` and `-z_0` -/
+example : VtxConvex 1 2 (exVtx 0)
+    (fun z => (range (1 + 1)).sup' nonempty_range_add_one
+      (fun l => (fun _ => (0:ℚ)) l + ∑ j ∈ range 1, (fun l _ => if l = 0 then (1:ℚ) else -1) l j * z j)) :=
+  maxAffine_convex 1 2 1 (exVtx 0) (fun _ => 0) (fun l _ => if l = 0 then 1 else -1)
+
 end RsomeV.C04
